@@ -210,11 +210,10 @@ func vfsDo(op vFSOp) error {
 		vfsLog = append(vfsLog, vFSOp{kind: "failed:" + op.kind, name: op.name})
 		return errors.New("vfs: injected failure")
 	}
-	if op.kind == "rename" && vfs.find(op.name) < 0 {
-		return errors.New("vfs: no such file")
-	}
-	if op.kind == "remove" && vfs.find(op.name) < 0 {
-		return errors.New("vfs: no such file")
+	if (op.kind == "rename" || op.kind == "remove") && vfs.find(op.name) < 0 {
+		// the attempt is still a file-system access with client-controlled paths: keep it in the log
+		vfsLog = append(vfsLog, vFSOp{kind: "failed:" + op.kind, name: op.name, to: op.to})
+		return os.ErrNotExist
 	}
 	vfsLog = append(vfsLog, op)
 	vfsApplyAny(vfs, op)
